@@ -7,6 +7,10 @@ CONSTANTS
   Messages <- HMessages
   Servers <- HServers
   Forms <- GenForms
+  Vias <- DirectOnly
+  XCodes <- QuickXCodes
+  XStatuses <- QuickXStatuses
+  XMessages <- QuickXMessages
   MaxServes = 3
   Deviation = "none"
 INVARIANTS EmitHist SuccessIff EnvelopeWellFormed ErrorOwnCode UnmarshalableIsError ClientNeverConfuses ResponseOfCurrentValue AnswerIsCurrent
